@@ -149,7 +149,9 @@ def refers(M, k, m):
 @contract(K_EXPAND, ())
 class expand_rule_refs:
     """result == U_{r in glob_list} (reference_map[r] if r in reference_map else U{reference_map[k] | glob(r, k)}),
-    as two inclusions.  Native reading executed by BOUNDED[0]; SMT reading blocked at base.py:1118 (dict.keys)."""
+    as two inclusions.  Native reading executed by BOUNDED[0].  SMT reading: the path through the glob branch is blocked at
+    base.py:1118 (dict.keys); the 8 VCs of the remaining paths (loop entry, exact-reference branch, exit) discharge with
+    inv_1 below -- measured on every run by symbolic_probe, reported as information, not counted."""
     types = {"self": RuleSet, "glob_list": TList(Text), "reference_map": RefMap, "expanded_rule_set": TSet(Text),
              "matched_refs": TList(Text)}
     ret = TSet(Text)
@@ -162,7 +164,7 @@ class expand_rule_refs:
             # everything a selector contributes
             and all(contributes(glob_list[i], reference_map, result) for i in range(len(glob_list))))
 
-    # invariants for the SMT reading (not exercised: the function does not get past line 1118 in the engine)
+    # invariants for the SMT reading (inv_2 is not exercised: the engine does not get past line 1118)
     def inv_1(glob_list, reference_map, expanded_rule_set, _i):
         return (all(any(hit(glob_list[i], reference_map, c) for i in range(0, _i)) for c in expanded_rule_set)
                 and all(contributes(glob_list[i], reference_map, expanded_rule_set) for i in range(0, _i)))
